@@ -72,7 +72,8 @@ def _aslist(v):
 class _ForcedTimeouts:
     """C02 retry clause: inside THIS worker process only, make the first n attempts of every transcript
     raise TimeoutError (as common.timeout would) and log the limits each attempt is given."""
-    def __init__(self, n):
+    def __init__(self, n, only_first=False):
+        self.only_first, self.first = only_first, None
         import importlib
         M = importlib.import_module('moPepGen.cli.call_variant_peptide')   # the module, not the function re-exported by cli
         M = sys.modules['moPepGen.cli.call_variant_peptide']
@@ -83,7 +84,9 @@ class _ForcedTimeouts:
             p = dispatch['cleavage_params']
             tx = dispatch['tx_id']
             self.log.append([tx, p.max_variants_per_node, p.additional_variants_per_misc])
-            if self.count.get(tx, 0) < self.n:
+            if self.first is None:
+                self.first = tx
+            if self.count.get(tx, 0) < self.n and (not self.only_first or tx == self.first):
                 self.count[tx] = self.count.get(tx, 0) + 1
                 raise TimeoutError('forced by the C02 correspondence')
             return self.orig(**dispatch)
@@ -109,7 +112,7 @@ def one_run(d, g, a, p, gvfs, r, idx):
     args = _PARSER.parse_args(argv)
     if not hasattr(args, 'quiet'):
         args.quiet = True
-    forced = _ForcedTimeouts(int(r['force_timeouts'])) if r.get('force_timeouts') is not None else None
+    forced = _ForcedTimeouts(int(r['force_timeouts']), bool(r.get('force_first_only'))) if r.get('force_timeouts') is not None else None
     try:
         if forced:
             with forced:
